@@ -52,7 +52,11 @@ class Runner:
     self.spec = dict(spec, ops=[])
     self.n = spec['n']
     self.par = tbrmmdesignparameters.TBRMMDesignParameters(**spec['params'])
-    self.pool = make_pool(self.n, spec['params']['n_test'], spec['factor'], spec['noise'])
+    n2 = spec.get('n2', self.n)
+    self.pools = [make_pool(self.n, spec['params']['n_test'], spec['factor'], spec['noise']),
+                  make_pool(n2, spec['params']['n_test'], spec['factor'][:n2], [e[:n2] for e in spec['noise']])]
+    self.which = 0
+    self.pool = self.pools[0]
     self.yi = spec['y0']
     self.xi = None
     self.real = self.D(self.pool[self.yi], self.par)
@@ -76,6 +80,8 @@ class Runner:
     try:
       if q == 'tbrfit':
         return ('ok', d.tbrfit(*args))
+      if q == 'estimate_required_impact':
+        return ('ok', d.estimate_required_impact(*args))
       return ('ok', getattr(d, q))
     except Exception as e:  # pylint: disable=broad-except
       return ('exc', type(e).__name__)
@@ -101,6 +107,8 @@ class Runner:
     elif kind == 'set_y':
       self.yi = op[1]
       self.xi = None
+      self.which = op[2] if len(op) > 2 else 0
+      self.pool = self.pools[self.which]
       self.real.y = self.pool[self.yi].copy()
       self._wrote()
     elif kind == 'clear_x':
@@ -118,6 +126,12 @@ class Runner:
     elif kind == 'tbrfit':
       self.reads += 1
       self._check('tbrfit', (op[1] / 4.0, op[2] / 4.0))
+    elif kind == 'estimate':
+      self.reads += 1
+      if 'required_impact' in self.written_after or 'estimate' in self.written_after:
+        self.nt = True
+      self.read_before_write.add('estimate')
+      self._check('estimate_required_impact', (op[1] / 1000.0,))
 
   def _wrote(self):
     self.writes += 1
@@ -127,6 +141,7 @@ class Runner:
     for q in QUANTS:
       self._check(q, where='teardown')
     self._check('tbrfit', (100.0, 200.0), where='teardown')
+    self._check('estimate_required_impact', (0.9,), where='teardown')
 
   def outcome(self):
     cls = ['reads:%s' % ('0' if not self.reads else '1-5' if self.reads <= 5 else '>5'),
@@ -135,6 +150,8 @@ class Runner:
       cls.append('read-write-read')
     if self.n - self.spec['params']['n_test'] < 3:
       cls.append('aatest-undefined')
+    if self.spec.get('n2', self.n) != self.n and any(o[0] == 'set_y' and len(o) > 2 and o[2] == 1 for o in self.spec['ops']):
+      cls.append('length-changed')
     return {'viol': list(self.viol[:3]), 'nt': self.nt, 'cls': cls, 'dc': 0}
 
 
@@ -157,7 +174,8 @@ def _init_spec(draw):
             'flevel': draw(st.sampled_from([0.9, 0.95]))}
   factor = draw(st.lists(st.integers(-6, 6), min_size=n, max_size=n))
   noise = [draw(st.lists(st.integers(-64, 64), min_size=n, max_size=n)) for _ in range(5)]
-  return {'n': n, 'params': params, 'factor': factor, 'noise': noise, 'y0': draw(st.integers(0, 4))}
+  n2 = draw(st.integers(3, n)) if draw(st.booleans()) else n
+  return {'n': n, 'n2': n2, 'params': params, 'factor': factor, 'noise': noise, 'y0': draw(st.integers(0, 4))}
 
 
 def machine(tier, sink):
@@ -182,9 +200,14 @@ def machine(tier, sink):
     def set_x(self, i):
       self.r.step(['set_x', i])
 
-    @rule(i=st.integers(0, 4))
-    def set_y(self, i):
-      self.r.step(['set_y', i])
+    @rule(i=st.integers(0, 4), which=st.integers(0, 1))
+    def set_y(self, i, which):
+      self.r.step(['set_y', i, which])
+
+    @rule(rho=st.sampled_from([0, 500, 900, 995, -900]))
+    def estimate(self, rho):
+      self.r.step(['estimate', rho])
+      self._after()
 
     @rule()
     def clear_x(self):
